@@ -58,12 +58,32 @@ static detail::UnboundedSPSCQueue& queue()
 static size_t writer_pos() { return queue()._producer->bounded_queue._writer_pos; }
 static size_t reader_pos() { return queue()._consumer->bounded_queue._reader_pos; }
 
+// attribution only (never hides anything else): the backend text equals the call-site text once the double quotes around
+// the text of a direct-format value nested inside an optional are removed
+static bool only_nested_direct_quoting(std::string got, std::string const& want)
+{
+  bool changed = false;
+  size_t p = 0;
+  while ((p = got.find("\"direct(", p)) != std::string::npos)
+  {
+    size_t const e = got.find(")\"", p);
+    if (e == std::string::npos) break;
+    got.erase(e + 1, 1);
+    got.erase(p, 1);
+    changed = true;
+  }
+  return changed && got == want;
+}
+
 static void report(char const* kind, std::string const& types, std::string const& got, std::string const& want, std::string const& extra)
 {
   ++g_viol;
-  std::string sig = std::string(kind) + "|" + types;
+  bool const nested_direct = types.find("OptDirect") != std::string::npos && only_nested_direct_quoting(got, want);
+  std::string sig = std::string(kind) + "|" + (nested_direct ? std::string("nested-direct") : types);
   if (!g_sigs.insert(sig).second || g_sigs.size() > 40) return;
-  vf::J("viol").s("kind", kind).s("types", types).s("got", got.substr(0, 300)).s("want", want.substr(0, 300)).s("case", types + " " + extra).emit();
+  vf::J("viol").s("kind", kind).s("types", types).s("got", got.substr(0, 300)).s("want", want.substr(0, 300)).s("case", types + " " + extra)
+    .b("direct_format_value_nested_in_optional", types.find("OptDirect") != std::string::npos)
+    .b("equal_after_removing_quotes_around_nested_direct_text", nested_direct).emit();
 }
 
 static bool same_char_multiset(std::string a, std::string b)
